@@ -391,8 +391,7 @@ class ExplicitSymplecticIntegrator(TableauIntegrator):
         if self.initial_rhs is None:
             self.initial_rhs = rhs(initial_time, initial_state, **constants)
 
-        if self.final_rhs is None:
-            self.final_rhs = rhs(initial_time + self.dTime, initial_state + self.dState, **constants)
+        self.final_rhs = rhs(initial_time + self.dTime, initial_state + self.dState, **constants)
 
         return timestep, (self.dTime, self.dState)
 
